@@ -33,6 +33,7 @@ for c in m["checks"]:
                       + ("; count observers, clone, downgrade, Weak::upgrade translated from src/rc.rs on every run and proved equal to the model's actions (gen/HandlesProofs.v)" if pid in ("C05", "C06", "C16") else "")
                       + ("; purge loops / phase one of drop_cycle translated from src/drop.rs on every run and proved equal to the model's purge_loop / bust_one (gen/PurgeProofs.v, gen/BustProofs.v)" if pid in ("C01", "C02", "C06", "C08", "C12", "C13") else "")
                       + ("; address arithmetic of as_ptr/into_raw/from_raw/data_offset/is_dangling/Weak::new/ptr_eq and the declaration of RcBox translated from src/rc.rs on every run and proved (round trips for every layout, injectivity, sentinel never a payload address: gen/RawPtrProofs.v), joined with the address layer of the model (coq/Inv/AddrInv.v) in gen/Capstone3.v" if pid in ("C06", "C07", "C12") else "")
+                      + ("; the whole machine with every library step executed by the regenerated code is proved equal to the model's machine and the safety theorem for every history is stated about it (gen/TranslatedMachine.v, gen/CounterBound.v)" if pid in ("C01", "C02", "C10") else "")
                       + ("; the untranslated functions of src/rc.rs are compared textually with the text the expectations were written from (source census)" if pid in ("C05", "C06", "C07", "C12") else "")
                       + ("; borrow sites re-derived from the source and compared with the transcription of Proofs/Borrow.v" if pid == "C10" else ""))
 m["not_applicable"] = []
